@@ -203,3 +203,61 @@ def single_positioning_write(c):
 def prove_single_positioning_write(ctx):
     from pycaption.dfxp.extras import SinglePositioningDFXPWriter as SP
     ctx.prove("dfxp.SinglePositioningDFXPWriter.write", single_positioning_write, functions=[SP.write], crosscheck=False)
+
+
+# ------------------------------------------------------------------------------------ LegacyDFXPWriter.write
+
+def legacy_write_skeleton(c):
+    """LegacyDFXPWriter.write as a skeleton: the input is copied, then concurrent captions are merged on the copy; with
+    `force` one language is written (the forced one, else the last of the set), without it every language in order; one
+    <div> per written language with one <p> per (merged) caption of that language, in order; every paragraph is placed
+    in the one region the document defines - `bottom` - whatever its style said about regions, and keeps the rest of
+    its style (the default class when it has none)."""
+    import copy
+    from pycaption.dfxp.extras import LegacyDFXPWriter as LW, LEGACY_DFXP_DEFAULT_REGION_ID, LEGACY_DFXP_DEFAULT_STYLE_ID
+    shape = c.pick("caption_set", list(SHAPES))
+    counts = SHAPES[shape]
+    langs = list(counts)
+    force = c.pick("force", ["", "first", "last", "absent"])
+    force = {"": "", "first": langs[0], "last": langs[-1], "absent": "zz"}[force]
+    region_key = c.pick("caption_styles_name_a_region", [False, True])
+    caps = {l: [Caption(10 ** 6 * (k + 1), 10 ** 6 * (k + 2), [CaptionNode.create_text(f"{l} {k}")],
+                        style=(dict({"color": "yellow"}, **({"region": "top"} if region_key else {})) if k else ({"region": "r9"} if region_key else {})))
+                for k in range(n)] for l, n in counts.items()}
+    cs = CaptionSet({l: CaptionList(v) for l, v in caps.items()})
+    w = c.new(LW, open_span=True, p_style=False)
+    log = []
+    soup = StubSoup()
+    q = "pycaption.dfxp.extras:LegacyDFXPWriter."
+    c.interp.overrides[BeautifulSoup] = lambda *a, **kw: soup
+    c.interp.overrides[copy.deepcopy] = lambda x, *a: (log.append(("copy", x is cs)), x)[1]
+
+    def h_p(interp, fn, a, kw):
+        log.append(("p", a[1], dict(a[2]), a[3] is soup))
+        return StubTag("p", {"of": a[1]})
+    c.interp.contracts.update({
+        "pycaption.base:merge_concurrent_captions": lambda interp, fn, a, kw: (log.append(("merge", a[0] is cs, len([e_ for e_ in log if e_[0] == "copy"]))), a[0])[1],
+        q + "_recreate_styling_tag": lambda interp, fn, a, kw: a[3],
+        q + "_recreate_region_tag": lambda interp, fn, a, kw: (log.append(("region", a[1])), a[3])[1],
+        q + "_recreate_p_tag": h_p,
+        "pycaption.dfxp.base:_VerbatimTextFormatter.__init__": lambda interp, fn, a, kw: None})
+    r = c.call(LW.write, w, cs, force, compare=False)
+    want = ([force] if force in langs else [langs[-1]]) if force else langs
+    divs = [t for t in soup.find("body").children if isinstance(t, StubTag)]
+    c.ensure("copied_then_merged_on_the_copy", [e_ for e_ in log if e_[0] in ("copy", "merge")] == [("copy", True), ("merge", True, 1)])
+    c.ensure("one_region_is_defined_bottom", [e_ for e_ in log if e_[0] == "region"] == [("region", LEGACY_DFXP_DEFAULT_REGION_ID)])
+    c.ensure("one_div_per_written_language_in_order", [t.attrs.get("xml:lang") for t in divs] == want and all(t.name == "div" for t in divs))
+    built = [e_ for e_ in log if e_[0] == "p"]
+    order = [cap for l in want for cap in caps[l]]
+    c.ensure("one_p_per_caption_of_the_written_languages_in_order", [e_[1] for e_ in built] == order and all(e_[3] for e_ in built)
+             and [t.attrs.get("of") for d in divs for t in d.children if isinstance(t, StubTag)] == order)
+    c.ensure("every_paragraph_is_placed_in_the_region_that_is_defined", all(e_[2].get("region") == LEGACY_DFXP_DEFAULT_REGION_ID for e_ in built))
+    c.ensure("and_keeps_the_rest_of_its_style",
+             all({k: v for k, v in e_[2].items() if k != "region"} == ({k: v for k, v in cap.style.items() if k != "region"} if cap.style else {"class": LEGACY_DFXP_DEFAULT_STYLE_ID})
+                 for e_, cap in zip(built, order)))
+    c.ensure("result_is_the_serialised_document", r == ("serialised", soup))
+
+
+def prove_legacy_write_skeleton(ctx):
+    from pycaption.dfxp.extras import LegacyDFXPWriter as LW
+    ctx.prove("dfxp.LegacyDFXPWriter.write[skeleton]", legacy_write_skeleton, functions=[LW.write, LW._force_language], crosscheck=False)
